@@ -29,8 +29,22 @@ password without username, host ``""``, 1-tuples and empty tuples as query
 values (identical string form to the bare string / to nothing), non-string
 password objects.
 
-Mutations caught (each in a private copy, `VF_REPO=/tmp/wt-strings`):
-  see the list at the end of this docstring, filled in after the runs.
+Known finding on the unchanged tree (reported, signature below): a blank query
+value is dropped by ``make_url`` (``parse_qsl`` without ``keep_blank_values``):
+``R1-roundtrip,R3-parse-moves-text: URL.create('d', query={'k': ''}) -> query={} (expected {'k': ''})``.
+With proposed_fixes/c20_url_keep_blank_query_values.diff applied the check is silent.
+
+Mutations caught (each in a private copy, `VF_REPO=/tmp/wt-strings/<m>`; all in engine/url.py):
+  * _parse_url: ``unquote`` -> ``unquote_plus`` for username/password/database
+    -> ``URL.create('d', username='+') -> username=' '``
+  * render_as_string: IPv6 brackets only when a port is present
+    -> R1-parse-raises / R2-render-ambiguous on host ``::1``
+  * render_as_string: database ``quote(.., safe=" +/?")`` -> ``database='?'`` parsed as query
+  * render_as_string: ``if self.port is not None`` -> ``if self.port`` -> ``port=0`` lost
+  * _parse_url: repeated query key ``append(value)`` -> ``insert(0, value)`` -> tuple order reversed
+  * render_as_string: password ``quote(.., safe=" +@")`` -> ``password='@'`` moves into host
+Equivalent (not property-breaking, correctly silent): username ``safe=" +@"`` (the
+parser takes the last ``@``), query key ``quote`` instead of ``quote_plus``.
 """
 import functools
 import itertools
